@@ -62,6 +62,16 @@ Theorem pipe_maximal_run : forall (l : list Z) (W : nat) (tr : list label) (s : 
 Proof. exact pipe_maximal_run_l. Qed.
 Print Assumptions pipe_maximal_run.
 
+(** An accepting verdict of the executable statement evaluated on an implementation output means:
+    the consumer received exactly f(x0), f(x1), ... in order, then saw the end of the stream, and the
+    processing function ran exactly once per input. *)
+Theorem check_sound : forall v o, check_C05 v o = true ->
+  v_list v_z (v_nth 1 o) = map fZ (v_list v_z (v_nth 1 v))
+  /\ v_bool (v_nth 2 o) = true
+  /\ v_list v_z (v_nth 3 o) = repeat 1%Z (length (v_list v_z (v_nth 1 v))).
+Proof. exact check_C05_sound_l. Qed.
+Print Assumptions check_sound.
+
 (** Non-vacuity: a concrete complete schedule of 2 workers over 2 items reaches a terminal state. *)
 Example terminal_witness :
   exists s, run Z Z fZ 0%Z (init Z Z [5; 7]%Z 2)
